@@ -453,8 +453,8 @@ Proof.
   unfold shift_rawtext in Hn.
   destruct (rawtag l =? html_hash_Plaintext) eqn:Epl.
   - (* plaintext: everything up to the end of input *)
-    destruct (safe_inv _ _ (plaintext_loop_spec _ Hw)) as (zp & Ez & Ha). rewrite Ez in Hn. cbn [rbind] in Hn.
-    pose proof (plaintext_loop_run _ _ _ Ez) as Hend. apply at_end_true in Hend; [|eauto using adv_wf].
+    destruct (safe_inv _ _ (plaintext_loop_spec c (lz l) false Hc Hw)) as ([zp hp] & Ez & Ha). rewrite Ez in Hn. cbn [rbind fst snd] in Hn, Ha.
+    pose proof (plaintext_loop_run _ _ _ _ _ Ez) as Hend. cbn [fst] in Hend. apply at_end_true in Hend; [|eauto using adv_wf].
     rewrite (adv_len _ _ Ha), Hlen in Hend.
     rewrite shiftv_spec in Hn by eauto using adv_wf. cbn [rbind fst snd] in Hn.
     destruct Ha as (A1 & A2 & A3).
